@@ -625,7 +625,7 @@ impl Accept {
                         assert(first_avail_at(old(self), steps));
                     }
                 }
-//@insert arm_end="} else"
+//@insert block_end_of="self.set_next();"
                 proof {
                     lemma_mod_step(old(self).next + steps, old(self).handles@.len() as int);
                     if all_alive(old(self)) && old(self).has_capacity() {
@@ -900,7 +900,7 @@ impl Accept {
 //@insert after="loop {"
             let ghost pre = *self;
             let ghost pre_s = sockets@;
-//@insert arm_last="Some(WakerInterest::WorkerAvailable(idx)) =>"
+//@insert after="self.avail.set_available(idx, true);"
                     // the bit is set exactly when a handle answers to the index, and nothing else is touched  [C03,C08]
                     assert(pre.has_idx(idx) ==> self.avail@ == pre.avail@.insert(idx));
                     assert(!pre.has_idx(idx) ==> self.avail@ == pre.avail@);
@@ -909,7 +909,7 @@ impl Accept {
                     // a worker became available: unless paused every listener has been offered the capacity  [C03]
                     assert(!self.paused ==> (!self.has_capacity() || forall|k: int| 0 <= k < sockets@.len() ==>
                         (#[trigger] sockets@[k]).lst.drained() || sockets@[k].timeout.is_some()));
-//@insert arm_last="Some(WakerInterest::Worker(handle)) =>"
+//@insert after="self.handles.push(handle);"
                     // the replacement worker joins the rotation and is marked available   [C08]
                     assert(self.handles@.len() == pre.handles@.len() + 1);
                     assert(self.handles@.subrange(0, pre.handles@.len() as int) == pre.handles@);
